@@ -34,15 +34,26 @@ impl OpResult {
 pub struct Frags<'a> {
     pub parts: Vec<&'a str>,
     pub fail_after: Option<usize>,
+    /// keep writing the remaining fragments after one failed and report the failure at the end
+    /// (the "always emit the reset, then return the body's result" idiom of styled Display impls)
+    pub keep_going: bool,
 }
 
 impl std::fmt::Display for Frags<'_> {
     fn fmt(&self, f: &mut std::fmt::Formatter<'_>) -> std::fmt::Result {
+        let mut failed = false;
         for (i, p) in self.parts.iter().enumerate() {
             if self.fail_after == Some(i) {
                 return Err(std::fmt::Error);
             }
-            f.write_str(p)?;
+            if self.keep_going {
+                failed |= f.write_str(p).is_err();
+            } else {
+                f.write_str(p)?;
+            }
+        }
+        if failed {
+            return Err(std::fmt::Error);
         }
         if self.fail_after == Some(self.parts.len()) {
             return Err(std::fmt::Error);
@@ -71,6 +82,12 @@ literal_formats! {
     21 => "\x1b[1m", 22 => "\x1b[0m", 23 => "\u{6f22}\u{5b57}", 24 => "\x1b(", 25 => "B", 26 => "\t",
     27 => "\x1b[4:", 28 => "3m", 29 => "\x18", 30 => "Status: all good\n", 31 => "\x1b[48;2;1;2;", 32 => "3mX",
     33 => "\u{1f44d}", 34 => "\x1b_apc", 35 => "\x7f",
+}
+
+/// Does this op's Display impl keep writing later fragments after one failed?  (Then, after an
+/// error, what reached the inner writer is the *client's* doing and need not be a prefix.)
+pub fn fmt_keeps_going(op: &Op) -> bool {
+    matches!(op, Op::Fmt(lens) if lens.len() % 2 == 0)
 }
 
 /// The bytes an op offers at cursor `c`.
@@ -174,13 +191,16 @@ pub fn apply(sut: &mut dyn Write, op: &Op, buf: &[u8]) -> OpResult {
             Applied::Fmt => {
                 let Op::Fmt(lens) = op else { unreachable!() };
                 let parts = str_frags(buf, lens).unwrap();
-                write!(sut, "{}", Frags { parts, fail_after: None }).map(|_| None)
+                // histories with an even number of fragments use a Display impl that keeps going
+                // after a failed piece
+                let keep_going = fmt_keeps_going(op);
+                write!(sut, "{}", Frags { parts, fail_after: None, keep_going }).map(|_| None)
             }
             Applied::FmtFail => {
                 let Op::FmtFail(lens, k) = op else { unreachable!() };
                 let parts = str_frags(buf, lens).unwrap();
                 let k = (*k).min(parts.len());
-                write!(sut, "{}", Frags { parts, fail_after: Some(k) }).map(|_| None)
+                write!(sut, "{}", Frags { parts, fail_after: Some(k), keep_going: false }).map(|_| None)
             }
             Applied::FmtLit => {
                 let Op::FmtLit(k) = op else { unreachable!() };
@@ -321,6 +341,18 @@ pub fn gen_faults(rng: &mut Rng, out_len: usize, starts: &[usize], allow_hard: b
         };
         let times = if rng.chance(1, 6) { rng.range(2, 3) as u32 } else { 1 };
         v.push(Fault { at, kind, times });
+        // cooperating faults: a short write directly followed by an interruption (or another
+        // fault) at the offset it leaves the writer at - retry loops that restart see this
+        if let FaultKind::Short(n) = kind {
+            if rng.chance(1, 3) {
+                let follow = match rng.below(4) {
+                    0 | 1 => FaultKind::Interrupted,
+                    2 => FaultKind::Zero,
+                    _ => FaultKind::WouldBlock,
+                };
+                v.push(Fault { at: (at + n).min(out_len), kind: follow, times: 1 });
+            }
+        }
     }
     v.sort_by_key(|f| f.at);
     v
